@@ -335,3 +335,27 @@ def run_search_check(pid, tier, obligations, prefixes, functions, bounds, outsid
             print('HARNESS-ERROR: ' + h[:600])
         return framework.EXIT_HARNESS
     return framework.EXIT_OK
+
+
+def replay(spec):
+    """./vcheck replay <file> for a counterexample of the search checks: runs the recorded job on a fresh native build of the
+    current /repo through the real depccg.parsing.run and re-evaluates the numeric statement of the properties"""
+    pid = spec['property']
+    bn = native.Build()
+    try:
+        res = bn.run([spec['job']])[0]
+    finally:
+        bn.close()
+    if res.get('error'):
+        print('native run raised: ' + res['error'])
+        kinds = ['C02.run-raises-on-valid-input']
+    else:
+        kinds = cky.check_run(spec['job'], 0, res)
+        print('trees: %s' % [(t['key'], t['score']) for t in res['sentences'][0]])
+    print('violated: %s' % kinds)
+    own = [k for k in kinds if k.startswith(pid + '.') or (pid == 'C02' and k.startswith('C16.leaf'))]
+    if own:
+        print('VIOLATION property=%s replay=%s' % (pid, spec.get('_path', '?')))
+        return 1
+    print('replay: property holds on this input')
+    return 0
